@@ -295,6 +295,9 @@ def memo_actions(keys, with_fft):
     qs += [M("Diatonic", ["C", T(3, 7), 2], "ascending"), M("Diatonic", ["C", T(3, 7)], "ascending"), M("Ionian", ["C"], "ascending"),
            M("Ionian", ["C", 2], "descending"), M("Dorian", ["D", 2], "ascending"), M("Dorian", ["D"], "ascending"),
            M("Diatonic", ["C", T(2, 6)], "ascending")]
+    # questions that are refused (a key that does not exist): refused the same way however often and whatever came before
+    qs += [Q("keys", "get_notes", "G#"), Q("chords", "triads", "G#"), Q("keys", "get_key_signature", "G#"), Q("intervals", "third", "C", "G#"),
+           Q("progressions", "to_chords", "I", "G#"), Q("keys", "get_notes", "H")]
     # pairs of questions whose arguments concatenate to the same text ('A' + '#3' and 'A#' + '3')
     qs += [Q("intervals", "from_shorthand", "A", "#3", False), Q("intervals", "from_shorthand", "A#", "3", False),
            Q("intervals", "from_shorthand", "C", "b3"), Q("intervals", "from_shorthand", "Cb", "3"),
@@ -968,7 +971,8 @@ def arg_assignments(entry):
 
 def build_kwargs(entry, assignment):
     facs = {p: fac for p, fac, kind in entry["params"] if kind == "given"}
-    return {p: facs[p]()[j] for p, j in assignment}
+    kw = {p: facs[p]()[j] for p, j in assignment}
+    return {p: v for p, v in kw.items() if v is not api.OMIT}
 
 
 def invoke(entry, inst, kwargs):
